@@ -180,7 +180,7 @@ def stats_part(chk, ir, native, quick):
         T = S.var('T')
         pre = [S.cmp('gt', T, S.const(Fraction(dt) * lo)), S.cmp('le', T, S.const(Fraction(dt) * hi))]
         sess = api.Session(ir, mode='real', overrides=ov, setup=setup)
-        out = {'obs': [], 'bad': [], 'fail': [], 'paths': 0, 'functions': [], 'seen': []}
+        out = {'obs': [], 'bad': [], 'bad_term': [], 'fail': [], 'paths': 0, 'functions': [], 'seen': []}
         def run_path(c):
             del ev[:]
             r = sess.run('h_c19_stats', [dt, 16 * dt, T], [], pathctl=c)
@@ -206,6 +206,14 @@ def stats_part(chk, ir, native, quick):
             out['obs'].append(('statistics cadence/run of %d iterations/records for the iterations %r (every 50th and the last)' % (N, want), 'proved' if ok else 'violated', {'recorded': got}))
             if not ok:
                 out['bad'].append({'N': N, 'T': float(Fraction(m['T'])) if m and 'T' in m else dt * N, 'recorded': got, 'expected': want})
+            # termination: "until T is reached" -- on this path the loop ran N times, so the final time N dt must have reached T and the
+            # time before the last iteration must not have (the run neither stops early nor goes on after T)
+            for (nm, claim) in (('the final time N dt has reached T', S.cmp('ge', S.const(Fraction(dt) * N), T)),
+                                ('the time before the last iteration was still below T', S.cmp('lt', S.const(Fraction(dt) * (N - 1)), T))):
+                st_t, m_t = SV.prove(z, list(pc), claim, 5000)
+                out['obs'].append(('termination/run of %d iterations/%s' % (N, nm), st_t, {}))
+                if st_t == 'violated':
+                    out['bad_term'].append({'N': N, 'T': float(Fraction(m_t['T'])) if m_t and 'T' in m_t else None, 'claim': nm})
         return out
     outs = par.pmap(work, len(ranges), procs=12)
     seen = []
@@ -225,6 +233,19 @@ def stats_part(chk, ir, native, quick):
                 chk.violation('C19/statistics/records are not "every 50th iteration and the last"', 'run of %d iterations: statistics recorded for iterations %r, expected %r; native rows %r' % (b['N'], b['recorded'], b['expected'], rows), rep)
             else:
                 chk.fail_closed.append('statistics cadence: irsym run of %d iterations records %r, native rows %r' % (b['N'], b['recorded'], rows))
+        for b in o['bad_term'][:1]:
+            if b['T'] is None:
+                chk.fail_closed.append('termination: refuted without a model for T (run of %d iterations)' % b['N']); continue
+            q = native.call('h_c19_stats', [dt, 16 * dt, b['T']], [])
+            Nn = q['i'][0] if q.get('status') == 0 and q['i'] else None
+            tf = q['d'][0] if q.get('status') == 0 and q['d'] else None
+            rep = {'dt': dt, 'duration': b['T'], 'irsym': b, 'native iterations': Nn, 'native final time': tf,
+                   'how': 'harness h_c19_stats (/verif/harness/h_num.cpp), native build: real solver::run, final iteration count and simulation time'}
+            if tf is not None and (tf < b['T'] or (Nn is not None and Nn >= 1 and tf - dt >= b['T'])):
+                chk.violation('C19/termination/the run does not stop exactly when T is reached', 'T = %r, dt = %r: the run makes %r iterations and ends at t = %r (%s)' % (
+                    b['T'], dt, Nn, tf, 'before T' if tf < b['T'] else 'a whole step after T'), rep)
+            else:
+                chk.fail_closed.append('termination: irsym refutes "%s" for a run of %d iterations at T=%r, native ends at %r after %r iterations' % (b['claim'], b['N'], b['T'], tf, Nn))
     missing = [n for n in range(1, nmax + 1) if n not in seen]
     if missing: chk.fail_closed.append('statistics cadence: iteration counts %r were not reached by any path' % (missing[:10],))
     chk.witnesses += len(seen)
